@@ -177,6 +177,57 @@ theorem render_seq_geo_resize (wd : World) (fs : Bool) (w h w' h' : Nat) (ops1 o
   exact ⟨a2, a3, b2, b3⟩
 
 
+/-! ### a reset forgets the cursor position report -/
+
+/-- `_min_available_height` is either forgotten (0) or the number of rows from the origin to the bottom of the
+    terminal the renderer is drawing on -/
+def MinOk (F : RFull) (T : Term) : Prop := F.minAvail = 0 ∨ F.minAvail = (T.h : Int)
+
+/-- `reset()` — hence `erase()`, `clear()` before its new request, and the `done` render — forgets the report:
+    whatever the terminal looks like afterwards (other output may have moved the cursor down), `MinOk` holds -/
+theorem minOk_reset (F : RFull) (sc la : Bool) (T' : Term) : MinOk (F.reset sc la).1 T' := Or.inl rfl
+
+theorem minOk_erase (F : RFull) (la : Bool) (T' : Term) : MinOk (F.erase la).1 T' := Or.inl rfl
+
+theorem minOk_finish (wd : World) (fs : Bool) (F : RFull) (a : AppSt) (s : Screen) (pref : Nat) (T' : Term) :
+    MinOk (F.render wd fs a s true pref).st T' := by
+  unfold RFull.render
+  simp only [if_true]
+  exact Or.inl rfl
+
+/-- a render that is not `done` keeps `_min_available_height` -/
+theorem render_minAvail (wd : World) (fs : Bool) (F : RFull) (a : AppSt) (s : Screen) (pref : Nat) :
+    (F.render wd fs a s false pref).st.minAvail = F.minAvail := by
+  unfold RFull.render
+  simp only [Bool.false_eq_true, if_false]
+  rfl
+
+theorem minOk_report (F : RFull) (rows : Nat) (T : Term) (htot : T.top + T.h = rows) :
+    MinOk (F.reportCpr rows ((T.top : Int) + 1)) T := Or.inr (reportCpr_truthful F rows T htot)
+
+/-- **fit_of_minOk** — in every state of a session in which `_min_available_height` is either forgotten or a
+    truthful report for the terminal the renderer now draws on (`MinOk`: established by every reset / erase / done
+    render and by every truthful report), a layout that respects the height it is given and whose preferred
+    height and previous height fit draws a screen that fits below the origin: no scroll, no write outside the
+    owned rows caused by the height computation — in particular after `erase()` + foreign output that moved
+    the cursor down + a render before the next report. -/
+theorem fit_of_minOk (F : RFull) (a : AppSt) (T : Term) (s : Screen) (pref : Nat) (hm : MinOk F T)
+    (hlast : F.lastHeight ≤ T.h) (hpref : pref ≤ T.h)
+    (hlay : s.height ≤ F.layoutHeight false a false pref) :
+    min (max s.height (prevHeight F.toCore.lastScreen)) a.h ≤ T.h := by
+  rcases hm with h0 | hT
+  · have h1 := layoutHeight_unknown F a pref h0
+    have h2 : prevHeight F.toCore.lastScreen = F.lastHeight := (lastHeight_eq F).symm
+    rw [h2]; omega
+  · exact fit_of_cpr F a T s pref hT hlast hpref hlay
+
+/-- the same, spelled out for the scenario: a truthful report, renders, then `erase()`; other output moves the
+    cursor down (`T'` is ANY terminal); the next render happens before a new report -/
+theorem fit_after_erase (F : RFull) (la : Bool) (a : AppSt) (T' : Term) (s : Screen) (pref : Nat)
+    (hpref : pref ≤ T'.h) (hlay : s.height ≤ (F.erase la).1.layoutHeight false a false pref) :
+    min (max s.height (prevHeight (F.erase la).1.toCore.lastScreen)) a.h ≤ T'.h :=
+  fit_of_minOk (F.erase la).1 a T' s pref (minOk_erase F la T') (by show 0 ≤ T'.h; omega) hpref hlay
+
 section ExamplesResize
 
 /-- a terminal of 5 rows whose origin is on row 2 (three rows are available), the renderer has been told so -/
@@ -211,6 +262,22 @@ example : Rendered (envFor exEnvNew 0 8) (stepR cw1 exEnvNew exRold exTnew (.ren
     the same -/
 example : Cmd.eraseDown ∈ (exRold.render (envFor exEnvNew 0 8) exS2 false false 0 0).2 ∧
     Cmd.eraseDown ∉ (exRold.render (envFor exEnv 0 8) exS2 false false 0 0).2 := by decide
+
+/-- **`reset` must forget the report**: the renderer was told "3 rows below the origin", erased, and other output
+    moved the cursor two rows down (one row is left).  With the report forgotten the layout is asked for its
+    preferred single row; had `_min_available_height` survived the reset, it would be asked for 3 rows on a
+    terminal with 1 row left — the `\r\n` that reserve them scroll the terminal -/
+theorem min_avail_reset_needed :
+    (exFcpr.erase true).1.layoutHeight false exApp5 false 1 = 1 ∧
+    ({ (exFcpr.erase true).1 with minAvail := exFcpr.minAvail } : RFull).layoutHeight false exApp5 false 1 = 3 ∧
+    ¬ MinOk ({ (exFcpr.erase true).1 with minAvail := exFcpr.minAvail } : RFull) (Term.fresh 4 1 4 (fun _ _ => TCell.blank)) := by
+  refine ⟨by decide, by decide, ?_⟩
+  intro h
+  rcases h with h | h <;> revert h <;> decide
+
+example : min (max exS33.height (prevHeight (exFcpr.erase true).1.toCore.lastScreen)) exApp5.h ≤
+    (Term.fresh 4 3 2 (fun _ _ => TCell.blank)).h :=
+  fit_after_erase exFcpr true exApp5 _ exS33 3 (by decide) (by decide)
 
 end ExamplesResize
 
